@@ -5,6 +5,8 @@ volume, suspensions with version bumps, turn in-play with BSP reconciliation, ru
 closure with results; strategies that create / place / cancel / update / replace with timing
 relative to the latencies.  Every random choice comes from the one `random.Random` passed in.
 """
+import random
+
 LADDER = [1.25, 1.5, 1.75, 2.0, 2.5, 3.0, 3.5, 4.0, 4.5, 5.0, 5.5, 6.0, 7.0, 8.0, 9.0, 10.0, 11.0, 12.0]
 DEC_LADDER = [1.5, 1.51, 1.52, 1.53, 1.54, 1.55, 1.56, 1.57, 1.58, 1.59, 1.6, 1.61, 1.62, 1.63, 1.64, 1.65, 1.66, 1.67]
 SPACINGS = [40, 50, 100, 119, 120, 121, 130, 169, 170, 171, 200, 279, 280, 281, 300, 500, 1000, 5000, 12000]
@@ -91,6 +93,22 @@ def gen_market(rng, mnum, t0, opts):
                "af": r["af"], "sp": r.get("sp"), "atb": [], "atl": [], "trd": []} for r in runners]
         updates.append({"pt": pt, "status": "CLOSED", "version": version + 1, "inplay": inplay, "bsp_rec": bsp_rec, "bsp_market": True,
                         "bet_delay": bet_delay, "runners": rs, "acts": {}})
+        zr = random.Random("reclose|%r|%r|%r" % (mnum, pt, [r["status"] for r in rs]))
+        if zr.random() < opts.get("p_reclose", 0.12):
+            # the result is amended: a second CLOSED book straight after the first (no re-open in between), other winner(s);
+            # drawn from a generator of its own so that the main random stream stays as it was
+            pt += 500
+            act2 = [r for r in rs if r["status"] != "REMOVED"]
+            rs_b = [dict(r) for r in rs]
+            if len(act2) > 1 and not any(r["hc"] for r in runners):
+                w2 = zr.sample([(r["id"], r["hc"]) for r in act2], zr.choice([1, 1, 2]))
+                for r in rs_b:
+                    if r["status"] != "REMOVED":
+                        r["status"] = "WINNER" if (r["id"], r["hc"]) in w2 else "LOSER"
+            updates.append({"pt": pt, "status": "CLOSED", "version": version + 2, "inplay": inplay, "bsp_rec": bsp_rec, "bsp_market": True,
+                            "bet_delay": bet_delay, "runners": rs_b, "acts": {}})
+            rs = rs_b
+            version += 1
         if rng.random() < opts.get("p_reopen", 0.15) and remove_at is None:
             # data arrives again after the close: re-open, then a second close
             pt += 1000
@@ -212,4 +230,9 @@ def gen_scenario(rng, **opts):
                     if rng.random() < 0.7:
                         acts.append(["bend"])
                 u["acts"][str(si)] = acts
+    # a limit of exactly zero ("risk nothing": the usual way to switch a strategy off) in a few scenarios; drawn from a
+    # generator of its own so that the main random stream (and every recorded seed) stays as it was
+    zr = random.Random("zero|%r|%r" % (sc["strategies"], markets[0]["updates"][0]["runners"][0]))
+    if zr.random() < opts.get("p_zero_limit", 0.06):
+        zr.choice(sc["strategies"])[zr.choice(["max_order", "max_sel", "max_market"])] = zr.choice([0, 0.0])
     return sc
